@@ -23,7 +23,7 @@ REPO_INC = os.path.join(REPO, 'include')
 BUILD = os.environ.get('VERIF_BUILD', os.path.join(VERIF, 'build'))
 CACHE = os.path.join(BUILD, 'astcache')
 
-CBMC_CHECKS = ['--bounds-check', '--pointer-check', '--signed-overflow-check', '--div-by-zero-check',
+CBMC_CHECKS = ['--object-bits', '11', '--bounds-check', '--pointer-check', '--signed-overflow-check', '--div-by-zero-check',
                '--undefined-shift-check', '--pointer-overflow-check']
 
 
@@ -85,10 +85,16 @@ def emit_unit(uspec, log=None):
     lib = libmodel.Lib()
     em = cxx2c.Emitter(ast, lib, aliases=uspec.aliases, opaque_ok=uspec.opaque_ok)
     em.spec = uspec
+    em.stub_aliases = uspec.stub_aliases
     lib.em = em
     try:
-        for qname, rx in uspec.emit:
+        for ent in uspec.emit:
+            qname, rx = ent[0], ent[1]
             fns = ast.find_functions(qname)
+            if not fns:
+                for q2, fl in ast.functions.items():
+                    if strip_targs(q2) == qname:
+                        fns = fns + fl
             fns = [f for f in fns if not f.get('_pattern')]
             if not fns:
                 raise Undecided('extraction-break', 'no definition of %s in the AST (renamed or removed?)' % qname)
@@ -103,12 +109,99 @@ def emit_unit(uspec, log=None):
                 raise Undecided('extraction-break', 'no instantiation of %s matches %s (have: %s)' % (
                     qname, rx, ', '.join(em.fn_cname(f) for f in fns)))
         em.run()
+        merge_instantiations(em, uspec)
     except cxx2c.Unsupported as e:
         raise Undecided('extraction-break', 'cxx2c: ' + str(e))
     ub.em = em
     ub.lib = lib
     assemble(ub)
     return ub
+
+
+def strip_targs(q):
+    out, depth = '', 0
+    for ch in q:
+        if ch == '<':
+            depth += 1
+        elif ch == '>':
+            depth -= 1
+        elif depth == 0:
+            out += ch
+    return out
+
+
+def merge_instantiations(em, uspec):
+    """Instantiations of one template that emit byte-identical C (modulo their
+    own name and the names of callees that were themselves merged) are verified
+    once; `emit Q RX as NAME` gives the representative(s) the short name NAME
+    (NAME__v2, ... for further distinct texts).  Iterated to a fixed point."""
+    em.merged = {}
+    count = {c: 1 for c in em.fn_order}
+
+    def apply(rename):
+        names = sorted(rename, key=len, reverse=True)
+        rx = re.compile(r'\b(' + '|'.join(re.escape(n) for n in names) + r')\b')
+
+        def sub(txt):
+            return rx.sub(lambda m: rename[m.group(1)], txt)
+        new_text, new_proto, new_meta, new_decl, new_order = {}, {}, {}, {}, []
+        for c in em.fn_order:
+            nc = rename.get(c, c)
+            if nc in new_text:
+                continue
+            new_order.append(nc)
+            new_text[nc] = sub(em.fn_text[c])
+            new_proto[nc] = sub(em.fn_proto[c])
+            new_meta[nc] = em.fn_meta[c]
+            new_decl[nc] = em.fn_decl[c]
+        em.fn_order, em.fn_text, em.fn_proto, em.fn_meta, em.fn_decl = new_order, new_text, new_proto, new_meta, new_decl
+        em.global_init = [sub(x) for x in em.global_init]
+        em.lambda_ops = {sub(k): [sub(x) for x in v] for k, v in em.lambda_ops.items()}
+        if em.lib:
+            for n in em.lib.gen_order:
+                em.lib.gen[n] = sub(em.lib.gen[n])
+
+    for _round in range(12):
+        groups = {}
+        for c in em.fn_order:
+            q = strip_targs(em.fn_meta[c]['qname'])
+            t = re.sub(r'\b%s\b' % re.escape(c), '@SELF@', em.fn_text[c])
+            t = t[t.index('\n') + 1:]
+            groups.setdefault((q, t), []).append(c)
+        rename = {}
+        for (q, t), cs in groups.items():
+            if len(cs) > 1:
+                for c in cs[1:]:
+                    rename[c] = cs[0]
+                    count[cs[0]] = count.get(cs[0], 1) + count.get(c, 1)
+        if not rename:
+            break
+        apply(rename)
+    # short names
+    rename = {}
+    byq = {}
+    for c in em.fn_order:
+        byq.setdefault(strip_targs(em.fn_meta[c]['qname']), []).append(c)
+    for e in uspec.emit:
+        if len(e) > 2 and e[2]:
+            k = 0
+            for c in byq.get(strip_targs(e[0]), []):
+                if e[1] and not re.search(e[1], c):
+                    continue
+                k += 1
+                nm = e[2]
+                if '{' in nm and e[1]:
+                    mm = re.search(e[1], c)
+                    for gi in range(1, (mm.re.groups if mm else 0) + 1):
+                        nm = nm.replace('{%d}' % gi, mm.group(gi) or '')
+                    rename[c] = nm if nm not in rename.values() else '%s__v%d' % (nm, k)
+                else:
+                    rename[c] = nm if k == 1 else '%s__v%d' % (nm, k)
+    if rename:
+        for c, n in rename.items():
+            count[n] = count.get(c, 1)
+        apply(rename)
+    em.merged = {c: count.get(c, 1) for c in em.fn_order if count.get(c, 1) > 1}
 
 
 def contract_text(fs, labels, lineno_base):
@@ -122,6 +215,15 @@ def contract_text(fs, labels, lineno_base):
         labels.append((lineno_base + len(out), lab))
         out.append('__CPROVER_ensures(%s)' % e)
     tg = [a for a in fs.assigns if a.strip() and a.strip() != 'nothing']
+    if fs.enforce_requires:
+        # assumptions about GHOST state made only where the contract is enforced
+        # (e.g. the dereference window equals the function's own range): ghosts do
+        # not influence the emitted code, so what is proved about its real
+        # accesses under them holds at every call site
+        out.append('#ifndef VERIF_REPLACING_%s' % fs.name)
+        for r in fs.enforce_requires:
+            out.append('__CPROVER_requires(%s)' % r)
+        out.append('#endif')
     if fs.ghost_requires or fs.ghost_ensures or fs.ghost_assigns:
         out.append('#ifdef VERIF_REPLACING_%s' % fs.name)
         for r in fs.ghost_requires:
@@ -175,24 +277,86 @@ def assemble(ub):
     for c in em.fn_order:
         L.append(em.fn_proto[c])
     L.append('void __cxx_global_init(void);')
-    # stubs (class 3)
-    for s, (ret, nargs) in em.stubs.items():
-        if s in us.functions and us.functions[s].assume_only:
+    # stubs (class 3): an assumed contract from the sidecar, else an
+    # over-approximating body (nondeterministic result, every by-address
+    # argument havocked)
+    ub.assumed = []
+    # assume-contract blocks whose name is a regex (~...) apply to every matching stub
+    for fs0 in list(us.order):
+        if fs0.assume_only and fs0.name.startswith('~'):
+            rx = fs0.name[1:]
+            us.order.remove(fs0)
+            us.functions.pop(fs0.name, None)
+            for sname in em.stubs:
+                if re.search(rx, sname) and sname not in us.functions:
+                    g = specmod.subst_fn(fs0, '__none__', '')
+                    g.name = sname
+                    us.order.append(g)
+                    us.functions[sname] = g
+    for sname, (ret, atys) in em.stubs.items():
+        fs = us.functions.get(sname)
+        params = ', '.join('%s a%d' % (t, i) for i, t in enumerate(atys)) or 'void'
+        if fs is not None and fs.assume_only:
             continue
-        L.append('%s %s();' % (ret, s))
+        L.append('%s %s(%s) {' % (ret, sname, params))
+        policy = None
+        for rx, pol in us.callable_policy:
+            if re.search(rx, sname):
+                policy = pol
+        for i, t in enumerate(atys):
+            if t.startswith('struct lam__') and t.endswith('*'):
+                ops = em.lambda_ops.get(t[len('struct '):-1].strip(), [])
+                if policy == 'at-most-once' and ops:
+                    # the callee may invoke the callable at most once, with an arbitrary argument
+                    L.append('  { _Bool call; int which; if (call) {')
+                    for j, op in enumerate(ops):
+                        pr = em.fn_proto.get(op, '')
+                        m = re.match(r'^.*?\((.*)\);$', pr)
+                        ps = cxx2c.split_top(m.group(1))[1:] if m else []
+                        decls, argl = [], ['a%d' % i]
+                        for q, pdecl in enumerate(ps):
+                            mm = re.match(r'^(.*?)(\*?)\s*(\w+)$', pdecl.strip())
+                            base, star = mm.group(1).strip(), mm.group(2)
+                            if star:
+                                decls.append('%s v%d;' % (base, q))
+                                argl.append('&v%d' % q)
+                            else:
+                                decls.append('%s v%d;' % (base, q))
+                                argl.append('v%d' % q)
+                        L.append('    %sif (which == %d) { %s %s(%s); }' % ('' if j == 0 else 'else ', j, ' '.join(decls), op, ', '.join(argl)))
+                    L.append('  } }')
+                continue
+            if t.endswith('*') and t.strip() != 'void *':
+                L.append('  { %s nd%d; *a%d = nd%d; }' % (t[:-1].strip(), i, i, i))
+        if ret.strip() != 'void':
+            if ret.strip().endswith('*'):
+                L.append('  static %s sink; %s nd; sink = nd; return &sink;' % (ret.strip()[:-1].strip(), ret.strip()[:-1].strip()))
+            else:
+                L.append('  %s r; return r;' % ret)
+        L.append('}')
     for n in fn_macros:
         L.append(lib.gen[n])
     for p in us.prelude:
         L.append(p)
     # assumed contracts on stubs / models declared in the spec
+    ub.fn_index = {f.name: i + 1 for i, f in enumerate(us.order)}
+    for f in us.order:
+        L.append('#define VERIF_FNID_%s %d' % (f.name, ub.fn_index[f.name]))
     ub.labels = {}     # cname -> [(line, label)]
     ub.fn_lines = {}   # cname -> (first,last) line in generated file
     for fs in us.order:
         if fs.assume_only:
             labels = []
             L.append('/* assumed contract (trusted, never enforced) */')
-            sig = fs.note or ''
+            sig = fs.signature
+            if not sig:
+                if fs.name in em.stubs:
+                    ret, atys = em.stubs[fs.name]
+                    sig = '%s %s(%s)' % (ret, fs.name, ', '.join('%s a%d' % (t, i) for i, t in enumerate(atys)) or 'void')
+                else:
+                    raise Undecided('sidecar-binding-broken', 'assume-contract %s: no such stub is reached and no signature given' % fs.name)
             L.append(sig)
+            ub.assumed.append(fs.name)
             L += contract_text(fs, labels, len(L) + 1)
             L.append(';' if fs.body is None else '{' + fs.body + '}')
     for c in em.fn_order:
@@ -234,7 +398,7 @@ def assemble(ub):
                     for h in fs.loops[k]['head']:
                         out.append(h)
                 continue
-            line = re.sub(r'/\*@RETURN (\S+) (\d+)@\*/', lambda mm: '{VERIF_COVER(%s);}' % mm.group(2), line)
+            line = re.sub(r'/\*@RETURN (\S+) (\d+)@\*/', lambda mm: ('{VERIF_COVER_IN(%s, %s);}' % (c, mm.group(2))) if fs else '', line)
 
             def callsub(mm):
                 if fs:
@@ -315,7 +479,7 @@ def run_function(ub, fs, tier='quick', solver=None, extra_defs=()):
     R = dict(function=fs.name, unit=us.name, cmds=[], obligations=[], seconds={}, status='ok', covers=None,
              bounded=fs.bounded, property=fs.property)
     harness = 'h_' + fs.name
-    repl_defs = ['-DVERIF_REPLACING_%s' % g for g in fs.replace]
+    repl_defs = ['-DVERIF_REPLACING_%s' % g for g in fs.replace] + ['-D' + x for x in fs.defines]
     cmd = ['goto-cc', '-DVERIF_CBMC', '-I' + VERIF] + ['-D' + x for x in extra_defs] + repl_defs + us.cflags + ['--function', harness, ub.cfile, '-o', gb0]
     rc, so, se, t = sh(cmd, timeout=120)
     R['cmds'].append(' '.join(cmd))
@@ -336,6 +500,9 @@ def run_function(ub, fs, tier='quick', solver=None, extra_defs=()):
         cmd += ['--enforce-contract', fs.name]
     for g in fs.replace:
         cmd += ['--replace-call-with-contract', g]
+    for g in ub.assumed:
+        if g not in fs.replace and us.functions[g].body is None:
+            cmd += ['--replace-call-with-contract', g]
     cmd += ['--apply-loop-contracts', cur, gb2]
     rc, so, se, t = sh(cmd, timeout=600)
     R['cmds'].append(' '.join(cmd))
@@ -388,7 +555,7 @@ def run_function(ub, fs, tier='quick', solver=None, extra_defs=()):
         gbv0 = os.path.join(d, tag + '.v0.gb')
         gbv1 = os.path.join(d, tag + '.v1.gb')
         gbv2 = os.path.join(d, tag + '.v2.gb')
-        cmd = ['goto-cc', '-DVERIF_CBMC', '-DVERIF_VACUITY', '-I' + VERIF] + repl_defs + us.cflags + ['--function', harness, ub.cfile, '-o', gbv0]
+        cmd = ['goto-cc', '-DVERIF_CBMC', '-DVERIF_VACUITY', '-DVERIF_VACUITY_FN=%d' % ub.fn_index[fs.name], '-I' + VERIF] + repl_defs + us.cflags + ['--function', harness, ub.cfile, '-o', gbv0]
         rc, so, se, t = sh(cmd, timeout=120)
         curv = gbv0
         if rc == 0 and fs.unwind:
@@ -400,11 +567,14 @@ def run_function(ub, fs, tier='quick', solver=None, extra_defs=()):
                 cmd += ['--enforce-contract', fs.name]
             for g in fs.replace:
                 cmd += ['--replace-call-with-contract', g]
+            for g in ub.assumed:
+                if g not in fs.replace and us.functions[g].body is None:
+                    cmd += ['--replace-call-with-contract', g]
             cmd += ['--apply-loop-contracts', curv, gbv2]
             rc, so, se, t = sh(cmd, timeout=600)
         if rc != 0:
             raise Undecided('solver-error', '%s: vacuity build failed: %s' % (fs.name, (so + se)[-1500:]))
-        cmd = ['cbmc'] + sflags + ['--json-ui', gbv2]
+        cmd = ['cbmc'] + sflags + ['--object-bits', '11', '--json-ui', gbv2]
         rc, so, se, t = sh(cmd, timeout=to)
         R['seconds']['vacuity'] = t
         if rc == 124:
@@ -420,6 +590,8 @@ def run_function(ub, fs, tier='quick', solver=None, extra_defs=()):
                 loc = r.get('sourceLocation', {})
                 cov.append(dict(point=dsc[6:], function=loc.get('function'), line=int(loc.get('line', 0) or 0),
                                 reached=(r.get('status') == 'FAILURE')))
+        if not cov:
+            raise Undecided('solver-error', '%s: vacuity run produced no reachability results (rc=%s): %s' % (fs.name, rc, (so + se)[-600:]))
         R['covers'] = cov
     return R
 
